@@ -1,6 +1,9 @@
 package props
 
 import (
+	"github.com/apache/yunikorn-core/pkg/common/configs"
+	"os"
+	"strconv"
 	"testing"
 
 	"pgregory.net/rapid"
@@ -225,18 +228,35 @@ func preemptionProfile() *harness.Profile {
 	p.Name = "preemption"
 	p.Conf = harness.ConfOpts{MaxDepth: 2, Quotas: true, Preemption: true, QuotaPreempt: true, FifoOnly: true, WideTrees: true, FewPrioProps: true}
 	p.Weights = harness.With(harness.BaseWeights(), map[string]int{harness.OpAddAsk: 22, harness.OpReportBound: 10, harness.OpAddApp: 8, harness.OpSchedule: 30, harness.OpConfirm: 6, harness.OpRelease: 3,
-		harness.OpQuotaPre: 4, harness.OpReload: 3, harness.OpUpdNode: 1, harness.OpForeign: 1, harness.OpDecomNode: 1, harness.OpRemoveApp: 1})
+		harness.OpQuotaPre: 8, harness.OpReload: 6, harness.OpUpdNode: 1, harness.OpForeign: 1, harness.OpDecomNode: 1, harness.OpRemoveApp: 1})
 	p.NodeLo, p.NodeHi, p.AskLo, p.AskHi = 6, 14, 1, 5
 	p.GangProb, p.ReqNodeProb, p.PreemptProb, p.OldAskProb, p.BoundReqNodeProb = 10, 10, 70, 75, 12
 	p.Reloads = true
 	p.Epilogue = true
 	p.MinSteps, p.MaxSteps = 20, 80
+	// half of the cases start from the directed scenario (guaranteed shares on two to four competing leaves)
+	generic := p.Conf
+	p.ConfFn = func(t *rapid.T) *configs.SchedulerConfig {
+		if rapid.IntRange(0, 99).Draw(t, "directed-scenario") < directedPct() {
+			return harness.PreemptionScenarioConf(t, true)
+		}
+		return harness.GenConf(t, generic)
+	}
 	return p
 }
 
 func preemptionPrologue(t *rapid.T, w *harness.World, p *harness.Profile) {
 	initial := w.Conf
 	w.ReloadGen = func(t *rapid.T, w *harness.World) string {
+		if rapid.IntRange(0, 9).Draw(t, "reload-quota-squeeze") < 4 {
+			usage := map[string]harness.Res{}
+			for path, q := range w.Last.Queues {
+				usage[path] = q.Allocated
+			}
+			if c := harness.QuotaSqueeze(t, w.Conf, usage); c != nil {
+				return harness.MarshalConf(c)
+			}
+		}
 		return harness.MarshalConf(harness.MutateConf(t, w.Conf, initial))
 	}
 	// the situation preemption is about: applications in several leaf queues, nodes filled by running allocations
@@ -288,4 +308,12 @@ func TestC11(t *testing.T) {
 	runWorld(t, worldCheck{prop: "C11", check: "C11/world", profile: churnAppsProfile, nonTriv: func(w *harness.World) bool {
 		return w.Tags["c11-gate-on-ancestor"] > 0 || w.Tags["c11-gate-evaluated"] > 1
 	}})
+}
+
+func directedPct() int {
+	if v := os.Getenv("VERIF_DIRECTED_PCT"); v != "" {
+		n, _ := strconv.Atoi(v)
+		return n
+	}
+	return 50
 }
